@@ -365,8 +365,8 @@ pub fn run(tier: Tier, seed: u64, known: &Known) -> PropRun {
     let set_k = move || KDRAWS.with(|k| *k.borrow_mut() = kd);
     run.extra.insert("key_draws_per_worker".into(), json!(kd));
     let parts: [(&str, u64, usize, fn(&[u8], &mut Stats) -> Verdict); 3] = [
-        ("routes", tier.pick(20_000, 400_000), 200, part_routes),
-        ("flips", tier.pick(25_000, 500_000), 260, part_flips),
+        ("routes", tier.pick(60_000, 400_000), 200, part_routes),
+        ("flips", tier.pick(80_000, 500_000), 260, part_flips),
         ("pool", tier.pick(16, 160), 60_000, part_pool),
     ];
     for (name, cases, max_len, f) in parts {
